@@ -8,7 +8,8 @@ cd /verif
 git -C /repo apply "$PATCH" || { echo "patch does not apply"; exit 2; }
 # the evidence and replay files of the unchanged tree are put back afterwards
 BK=$(mktemp -d /tmp/mut_bk.XXXXXX); cp -a evidence "$BK/evidence"; [ -d replays ] && cp -a replays "$BK/replays"
-cleanup() { git -C /repo checkout -- . ; git -C /repo clean -fdq packages 2>/dev/null; rm -rf /verif/evidence /verif/replays; cp -a "$BK/evidence" /verif/evidence; [ -d "$BK/replays" ] && cp -a "$BK/replays" /verif/replays; rm -rf "$BK"; }
+DONE=0
+cleanup() { [ "$DONE" = 1 ] && return; DONE=1; git -C /repo checkout -- . ; git -C /repo clean -fdq packages 2>/dev/null; rm -rf /verif/evidence /verif/replays; cp -a "$BK/evidence" /verif/evidence; [ -d "$BK/replays" ] && cp -a "$BK/replays" /verif/replays; rm -rf "$BK"; }
 trap cleanup EXIT
 trap 'cleanup; exit 143' INT TERM
 mkdir -p /tmp/mut_ev
